@@ -8,11 +8,20 @@ Local Definition ex_e1 := {| eid := 1; efile := 0%nat; eiov := [(10, 4); (11, 2)
 Local Definition ex_e2 := {| eid := 2; efile := 1%nat; eiov := [] |}.
 Local Definition ex_e3 := {| eid := 3; efile := 0%nat; eiov := [(12, 1)] |}.
 Local Definition ex_e4 := {| eid := 4; efile := 1%nat; eiov := [(13, 7)] |}.
+Local Definition allok : nat -> bool := fun _ => true.
 Local Definition ex_b :=
-  [[]; [Entry ex_e1; Entry ex_e2]; []; [Entry ex_e3; Entry ex_e4; Stop; Entry ex_e1]; [Entry ex_e2]].
+  [([], allok); ([Entry ex_e1; Entry ex_e2], allok); ([], allok);
+   ([Entry ex_e3; Entry ex_e4; Stop; Entry ex_e1], allok); ([Entry ex_e2], allok)].
 Example lga_sanity :
   (file_stream (writer w0 ex_b) 0, file_stream (writer w0 ex_b) 1, returned (writer w0 ex_b), stopped (writer w0 ex_b))
   = ([(10, 4); (11, 2); (12, 1)], [(13, 7)], [10; 11; 12; 13], true).
+Proof. vm_compute. reflexivity. Qed.
+(* file 0 has no descriptor in the round that carries e1: its text is lost, its pages still come back *)
+Local Definition ex_c :=
+  [([Entry ex_e1; Entry ex_e4], fun f => negb (Nat.eqb f 0)); ([Entry ex_e3; Stop], allok)].
+Example lga_sanity_badfd :
+  (file_stream (writer w0 ex_c) 0, file_stream (writer w0 ex_c) 1, returned (writer w0 ex_c), stopped (writer w0 ex_c))
+  = ([(12, 1)], [(13, 7)], [10; 11; 13; 12], true).
 Proof. vm_compute. reflexivity. Qed.
 
 (* ---- auxiliary views ---- *)
@@ -226,8 +235,10 @@ Qed.
 Lemma chunks_concat : forall v, concat (filter writev_ok (chunks (length v) v)) = v.
 Proof. intro v. apply chunks_concat_fuel. apply le_n. Qed.
 
-Definition chunked (d : dests) : dests :=
-  flat_map (fun x => map (fun c => (fst x, c)) (filter writev_ok (chunks (length (snd x)) (snd x)))) d.
+Definition chunked (ok : nat -> bool) (d : dests) : dests :=
+  flat_map (fun x => if ok (fst x)
+                     then map (fun c => (fst x, c)) (filter writev_ok (chunks (length (snd x)) (snd x)))
+                     else []) d.
 
 Lemma dstream_tagged : forall f g cs, dstream f (map (fun c => (g, c)) cs) = if Nat.eqb g f then concat cs else [].
 Proof.
@@ -236,96 +247,151 @@ Proof.
   rewrite IH. destruct (Nat.eqb g f); reflexivity.
 Qed.
 
-Lemma dstream_chunked : forall f d, dstream f (chunked d) = dstream f d.
+Lemma dstream_app : forall f a b, dstream f (a ++ b) = dstream f a ++ dstream f b.
+Proof. intros f a b. unfold dstream. apply flat_map_app. Qed.
+
+(* a destination without a descriptor contributes nothing to its file; the others their whole iov *)
+Lemma dstream_chunked : forall ok f d, dstream f (chunked ok d) = if ok f then dstream f d else [].
 Proof.
-  induction d as [|[g w] d IH]; [reflexivity|].
-  cbn [chunked flat_map fst snd]. fold (chunked d).
-  unfold dstream at 1. rewrite flat_map_app. fold (dstream f (chunked d)).
-  fold (dstream f (map (fun c => (g, c)) (filter writev_ok (chunks (length w) w)))).
-  rewrite dstream_tagged, chunks_concat, IH. reflexivity.
+  intros ok f. induction d as [|[g w] d IH]; [now destruct (ok f)|].
+  cbn [chunked flat_map fst snd]. fold (chunked ok d).
+  rewrite dstream_app, IH.
+  change (dstream f ((g, w) :: d)) with ((if Nat.eqb g f then w else []) ++ dstream f d).
+  destruct (Nat.eqb g f) eqn:Hg.
+  - apply Nat.eqb_eq in Hg. subst g. destruct (ok f).
+    + rewrite dstream_tagged, Nat.eqb_refl, chunks_concat. reflexivity.
+    + reflexivity.
+  - destruct (ok g).
+    + rewrite dstream_tagged, Hg. reflexivity.
+    + reflexivity.
 Qed.
+
+(* the regenerated facts: the flush call is reached for every non-empty destination and returns the pages *)
+Lemma faithful : faithful_flush = true.
+Proof. vm_compute. reflexivity. Qed.
+
+Lemma returned_any : forall ok d,
+  flat_map (fun x : nat * list (page * Z) => if faithful_flush || ok (fst x) then map fst (snd x) else []) d = dpages d.
+Proof. intros ok d. rewrite faithful. reflexivity. Qed.
 
 (* ---- one iteration of the loop ---- *)
-Lemma step_stopped : forall s b, stopped (flush (scan s b)) = stopped s || has_stop b.
-Proof. intros s b. rewrite scan_eq. reflexivity. Qed.
+Lemma step_stopped : forall ok s b, stopped (flush ok (scan s b)) = stopped s || has_stop b.
+Proof. intros ok s b. rewrite scan_eq. reflexivity. Qed.
 
-Lemma step_pending : forall s b, pending (flush (scan s b)) = cleared (spend (pending s) (upto_stop b)).
-Proof. intros s b. rewrite scan_eq. reflexivity. Qed.
+Lemma step_pending : forall ok s b, pending (flush ok (scan s b)) = cleared (spend (pending s) (upto_stop b)).
+Proof. intros ok s b. rewrite scan_eq. reflexivity. Qed.
 
-Lemma step_stream : forall s b f, NoDup (map fst (pending s)) ->
-  file_stream (flush (scan s b)) f = file_stream s f ++ dstream f (pending s) ++ contrib f (upto_stop b).
+Lemma step_stream : forall ok s b f, NoDup (map fst (pending s)) ->
+  file_stream (flush ok (scan s b)) f =
+  file_stream s f ++ (if ok f then dstream f (pending s) ++ contrib f (upto_stop b) else []).
 Proof.
-  intros s b f Hd. rewrite scan_eq. unfold file_stream, flush. cbn [written pending].
+  intros ok s b f Hd. rewrite scan_eq. unfold file_stream, flush. cbn [written pending].
   rewrite flat_map_app. f_equal.
-  change (dstream f (chunked (filter live (spend (pending s) (upto_stop b))))
-          = dstream f (pending s) ++ contrib f (upto_stop b)).
-  rewrite dstream_chunked, dstream_live. now apply spend_dstream.
+  change (dstream f (chunked ok (filter live (spend (pending s) (upto_stop b))))
+          = if ok f then dstream f (pending s) ++ contrib f (upto_stop b) else []).
+  rewrite dstream_chunked, dstream_live. destruct (ok f); [now apply spend_dstream|reflexivity].
 Qed.
 
-Lemma step_returned : forall s b,
-  Permutation (returned (flush (scan s b))) (returned s ++ dpages (pending s) ++ qpages (upto_stop b)).
+Lemma step_returned : forall ok s b,
+  Permutation (returned (flush ok (scan s b))) (returned s ++ dpages (pending s) ++ qpages (upto_stop b)).
 Proof.
-  intros s b. rewrite scan_eq. unfold flush. cbn [returned pending].
-  apply Permutation_app_head.
+  intros ok s b. rewrite scan_eq. unfold flush. cbn [returned pending].
+  apply Permutation_app_head. rewrite returned_any.
   change (Permutation (dpages (filter live (spend (pending s) (upto_stop b))))
                       (dpages (pending s) ++ qpages (upto_stop b))).
   rewrite dpages_live. apply spend_dpages.
 Qed.
 
-(* ---- the loop, from any state whose destinations are distinct ---- *)
-Lemma writer_gen : forall batches s,
-  stopped s = false -> NoDup (map fst (pending s)) -> has_stop (concat batches) = true ->
-  stopped (writer s batches) = true /\
-  (forall f, file_stream (writer s batches) f =
-             file_stream s f ++ dstream f (pending s) ++ contrib f (upto_stop (concat batches))) /\
-  Permutation (returned (writer s batches))
-              (returned s ++ dpages (pending s) ++ qpages (upto_stop (concat batches))).
+(* what reaches file f: per round, the entries scanned in that round if f had a descriptor then; rounds
+   after the one that carries the stop marker do not happen *)
+Fixpoint delivered (f : nat) (rounds : list (list item * (nat -> bool))) : list (page * Z) :=
+  match rounds with
+  | [] => []
+  | (b, ok) :: r => (if ok f then contrib f (upto_stop b) else []) ++ (if has_stop b then [] else delivered f r)
+  end.
+
+Lemma delivered_allok : forall f rounds, Forall (fun r => forall g, snd r g = true) rounds ->
+  delivered f rounds = contrib f (upto_stop (concat (map fst rounds))).
 Proof.
-  induction batches as [|b bs IH]; intros s Hs Hd Hc.
+  intros f rounds H. induction H as [|[b ok] r Hok _ IH]; [reflexivity|].
+  cbn [delivered map fst concat]. cbn [snd] in Hok. rewrite Hok, upto_stop_app.
+  destruct (has_stop b); [now rewrite app_nil_r|].
+  rewrite IH. unfold contrib. now rewrite flat_map_app.
+Qed.
+
+(* ---- the loop, from any state whose destinations are distinct and flushed ---- *)
+Lemma writer_gen : forall rounds s,
+  stopped s = false -> NoDup (map fst (pending s)) -> (forall f, dstream f (pending s) = []) -> dpages (pending s) = [] ->
+  has_stop (concat (map fst rounds)) = true ->
+  stopped (writer s rounds) = true /\
+  (forall f, file_stream (writer s rounds) f = file_stream s f ++ delivered f rounds) /\
+  Permutation (returned (writer s rounds))
+              (returned s ++ qpages (upto_stop (concat (map fst rounds)))).
+Proof.
+  induction rounds as [|[b ok] bs IH]; intros s Hs Hd He Hp Hc.
   - discriminate Hc.
-  - cbn [concat] in Hc |- *. rewrite has_stop_app in Hc. rewrite upto_stop_app.
-    cbn [writer]. cbv zeta. rewrite step_stopped, Hs. cbn [orb].
+  - cbn [map fst concat] in Hc |- *. rewrite has_stop_app in Hc. rewrite upto_stop_app.
+    cbn [writer delivered]. cbv zeta. rewrite step_stopped, Hs. cbn [orb].
+    assert (Hst : forall f, file_stream (flush ok (scan s b)) f =
+                            file_stream s f ++ (if ok f then contrib f (upto_stop b) else [])).
+    { intro f. rewrite step_stream by exact Hd. rewrite He. reflexivity. }
+    assert (Hrt : Permutation (returned (flush ok (scan s b))) (returned s ++ qpages (upto_stop b))).
+    { rewrite step_returned, Hp. reflexivity. }
     destruct (has_stop b) eqn:Hb.
     + split; [|split].
       * rewrite step_stopped, Hs, Hb. reflexivity.
-      * intro f. now apply step_stream.
-      * apply step_returned.
+      * intro f. rewrite Hst, app_nil_r. reflexivity.
+      * exact Hrt.
     + cbn [orb] in Hc.
-      assert (Hs' : stopped (flush (scan s b)) = false) by (rewrite step_stopped, Hs, Hb; reflexivity).
-      assert (Hd' : NoDup (map fst (pending (flush (scan s b))))).
+      assert (Hs' : stopped (flush ok (scan s b)) = false) by (rewrite step_stopped, Hs, Hb; reflexivity).
+      assert (Hd' : NoDup (map fst (pending (flush ok (scan s b))))).
       { rewrite step_pending, cleared_fst. now apply spend_nodup. }
-      destruct (IH _ Hs' Hd' Hc) as (H1 & H2 & H3).
+      assert (He' : forall f, dstream f (pending (flush ok (scan s b))) = []).
+      { intro f. rewrite step_pending. apply dstream_cleared. }
+      assert (Hp' : dpages (pending (flush ok (scan s b))) = []).
+      { rewrite step_pending. apply dpages_cleared. }
+      destruct (IH _ Hs' Hd' He' Hp' Hc) as (H1 & H2 & H3).
       split; [exact H1|split].
-      * intro f. rewrite H2. rewrite step_stream by exact Hd.
-        rewrite step_pending, dstream_cleared. cbn [app].
-        unfold contrib. rewrite flat_map_app. now rewrite <- !app_assoc.
-      * rewrite H3. rewrite step_pending, dpages_cleared. cbn [app].
-        rewrite step_returned. unfold qpages. rewrite flat_map_app. now rewrite <- !app_assoc.
+      * intro f. rewrite H2, Hst. now rewrite <- app_assoc.
+      * rewrite H3, Hrt. unfold qpages. rewrite flat_map_app. now rewrite <- !app_assoc.
 Qed.
 
-Lemma writer_w0 : forall q rest batches, concat batches = map Entry q ++ Stop :: rest ->
-  stopped (writer w0 batches) = true /\
-  (forall f, file_stream (writer w0 batches) f = contrib f q) /\
-  Permutation (returned (writer w0 batches)) (qpages q).
+Lemma writer_w0 : forall q rest rounds, concat (map fst rounds) = map Entry q ++ Stop :: rest ->
+  stopped (writer w0 rounds) = true /\
+  (forall f, file_stream (writer w0 rounds) f = delivered f rounds) /\
+  Permutation (returned (writer w0 rounds)) (qpages q).
 Proof.
-  intros q rest batches Hc.
-  destruct (writer_gen batches w0 eq_refl (NoDup_nil _)) as (H1 & H2 & H3).
+  intros q rest rounds Hc.
+  destruct (writer_gen rounds w0 eq_refl (NoDup_nil _) (fun _ => eq_refl) eq_refl) as (H1 & H2 & H3).
   - rewrite Hc. apply has_stop_spec.
-  - rewrite Hc, upto_stop_spec in H2, H3. split; [exact H1|split].
+  - rewrite Hc, upto_stop_spec in H3. split; [exact H1|split].
     + intro f. rewrite H2. reflexivity.
     + exact H3.
 Qed.
 
-Lemma lga_file_stream : forall q rest batches f,
-  concat batches = map Entry q ++ Stop :: rest ->
-  file_stream (writer w0 batches) f = flat_map (fun e => if Nat.eqb (efile e) f then eiov e else []) q.
-Proof. intros q rest batches f Hc. exact (proj1 (proj2 (writer_w0 q rest batches Hc)) f). Qed.
+(* every file object has a descriptor in every round: each file receives exactly its entries, in queue order *)
+Lemma lga_file_stream : forall q rest rounds f,
+  concat (map fst rounds) = map Entry q ++ Stop :: rest ->
+  Forall (fun r => forall g, snd r g = true) rounds ->
+  file_stream (writer w0 rounds) f = flat_map (fun e => if Nat.eqb (efile e) f then eiov e else []) q.
+Proof.
+  intros q rest rounds f Hc Hok. rewrite (proj1 (proj2 (writer_w0 q rest rounds Hc)) f).
+  rewrite delivered_allok by exact Hok. rewrite Hc, upto_stop_spec. reflexivity.
+Qed.
 
-Lemma lga_pages_returned : forall q rest batches,
-  concat batches = map Entry q ++ Stop :: rest ->
-  Permutation (returned (writer w0 batches)) (flat_map (fun e => map fst (eiov e)) q).
-Proof. intros q rest batches Hc. exact (proj2 (proj2 (writer_w0 q rest batches Hc))). Qed.
+(* any availability of the files: a file receives, round by round, exactly the entries scanned while it had a
+   descriptor - whole entries, in queue order, nothing else *)
+Lemma lga_file_stream_any : forall q rest rounds f,
+  concat (map fst rounds) = map Entry q ++ Stop :: rest ->
+  file_stream (writer w0 rounds) f = delivered f rounds.
+Proof. intros q rest rounds f Hc. exact (proj1 (proj2 (writer_w0 q rest rounds Hc)) f). Qed.
 
-Lemma lga_stops : forall q rest batches,
-  concat batches = map Entry q ++ Stop :: rest -> stopped (writer w0 batches) = true.
-Proof. intros q rest batches Hc. exact (proj1 (writer_w0 q rest batches Hc)). Qed.
+(* ... and the pages of EVERY entry come back, whether or not its file could be written *)
+Lemma lga_pages_returned : forall q rest rounds,
+  concat (map fst rounds) = map Entry q ++ Stop :: rest ->
+  Permutation (returned (writer w0 rounds)) (flat_map (fun e => map fst (eiov e)) q).
+Proof. intros q rest rounds Hc. exact (proj2 (proj2 (writer_w0 q rest rounds Hc))). Qed.
+
+Lemma lga_stops : forall q rest rounds,
+  concat (map fst rounds) = map Entry q ++ Stop :: rest -> stopped (writer w0 rounds) = true.
+Proof. intros q rest rounds Hc. exact (proj1 (writer_w0 q rest rounds Hc)). Qed.
